@@ -482,7 +482,16 @@ pub fn check_query(dw: &DataWorld, rw: &RWorld, q: &Query, flags: u32) -> Result
             Ok(None)
         }
         (Err(e), Ok(_)) => {
-            let tags: &[&'static str] = if e == QError::MutEntity { &["C18"] } else { &["C05"] };
+            // a query that only expands because some parameter carries a #[cfg] attribute does not
+            // behave "as if the attribute were absent" / "as if the parameter had not been written"
+            // (its cfg-free reduction is rejected): that is C16's violation as well as C05's
+            let tags: &[&'static str] = if e == QError::MutEntity {
+                &["C18"]
+            } else if q.params.iter().any(|p| !p.cfgs.is_empty()) {
+                &["C05", "C16"]
+            } else {
+                &["C05"]
+            };
             Err(viol(tags, format!("{} must be rejected ({:?}) but expands", desc(), e)))
         }
         (Ok(m), Err(msg)) => Err(viol(&["C05", "C16"], format!("{} matches [{}] but is rejected with '{}'", desc(), m.iter().map(|x| x.0.clone()).collect::<Vec<_>>().join(","), msg))),
